@@ -197,3 +197,18 @@ CHECKS["C20"] = {
              "inside the tools' unprotected stages are outside the analysis. Polynomial (non-exponential) regex backtracking is not analysed. Four escape origins "
              "are exempted by name with a reason in octacheck/rules/c20.py (ESCAPE_EXEMPT)."),
 }
+
+CHECKS["C07"] = {
+    "technique": "static analysis: path-sensitive pairing rules over the CFG (rewrite site => receipt on every path, receipt => rewrite guard), symbolic evaluation of the scanner's line/column update expressions, per-path append counting in the tool mappers, wiring (def-use) rules from the readers to the envelopes",
+    "text": ("Decides the structural half of the rewrite/receipt bijection: in tokenize every Token built with a normalized_from is followed on every path by the "
+             "normalization record carrying that original and the token's unchanged line/column; records are appended only under a non-empty marker, the marker "
+             "is set only under the alias-table / triple-quote tests and the alias table is irreflexive; every update of pos is matched by the column/line update "
+             "(the multi-line-token formula is evaluated symbolically on text = A + newline + T); in Parser each of the 11 word-list joins is receipted by a "
+             "multi_word_coalesce warning on every path that joined more than one word; both octave_write mappers turn each normalization / lenient_parse record "
+             "into exactly one correction, filter on type only and produce none for spec_violation findings; both tools pass the reader's complete receipt list "
+             "into repairs / corrections, in strict and lenient mode."),
+    "note": ("The multiset equality between injected rewrites and receipts on concrete documents (exact original text, line, column per occurrence) is not decided, nor "
+             "that canonical text triggers no lenient_parse warning of other subtypes. Splitting a run of annotated words (NEVER<X> ALWAYS<Y>) into a list emits no "
+             "receipt and is pinned by the repository's own test; it is outside R07.2, which covers joins. Unknown expressions in the line/column update make the check "
+             "exit 2 (analysis incomplete) rather than guess."),
+}
